@@ -426,7 +426,7 @@ deriving DecidableEq, Repr
 /-- how an attribute name is bound on a class. -/
 inductive Attr
   | descr (d : Descr)   -- a `RegionAttribute` data descriptor
-  | plain               -- ordinary instance attribute (no descriptor)
+  | plain               -- ordinary instance attribute (no descriptor); no parameter is bound this way any more
   | readonly            -- property without setter / deleter
 deriving DecidableEq, Repr
 
@@ -804,7 +804,7 @@ def fieldOk (o : RObj) : String × Attr → Bool
   | (f, .descr d) => match o.get f with
       | some v => inDomain d v
       | none => false
-  | (f, .plain) => match o.get f with      -- the only plain parameter is `text : str`
+  | (f, .plain) => match o.get f with      -- a plain-attribute parameter would have to be a `str` (`text` before ec59199)
       | some v => v.kind == .pyStr
       | none => false
   | (_, .readonly) => true
